@@ -8,7 +8,7 @@ AP/APH, MOTA/MOTP/ID switches).  The Lean model (PEval.Model.FrameChange) render
 with exact rationals: its map coordinates, ego-relative positions and squared center distances are
 compared with the real ones, and the theorems state the invariance for every scene and pose.
 Scenes in which some decision lies within 1e-6 of its boundary are outside the property's
-quantifier: they are detected on the ego rendering, counted and skipped.
+quantifier: they are detected from the scene (full estimate x ground-truth table, see `_near_reasons`), counted and skipped.
 
 "Any ego pose" includes real map coordinates (MGRS/UTM: 1e4 .. 1e6 m from the map origin).  The 'far' family
 renders scenes with such ego translations and puts *twins* into them: distinct objects with the same label,
@@ -79,8 +79,14 @@ ASSUMPTIONS = [
     "ego poses are yaw + translation (planar up to 2^20 m, height up to some hundred metres; no roll/pitch: the property's quantifier is translation and yaw)",
     "filter configurations are those the configs accept: one range kind per level (x/y box or min/max distance), scalar or per-label lists",
     "no two objects of a frame are equal under DynamicObject.__eq__ (twins are distinct objects: they differ in position by >= 1/1024 m)",
-    "no decision within 1e-6 of its boundary, no two matches of a frame with center distances within 1e-6 of each other "
-    "(margins are checked on the ego rendering; such scenes are counted as skipped)",
+    "no decision within 1e-6 of its boundary (1e-4 for the range bounds).  Margins are computed from the scene itself on the FULL "
+    "estimate x ground-truth table of every frame: every candidate's center distance against every max_matchable_radius, every two "
+    "candidates against each other (tie of the matcher's arg-min), the 2nd/3rd corner rank of every ground truth (plane distance), "
+    "|yaw error| against pi, and the four scores of the matched pairs against every threshold applied to them; a scene with any "
+    "margin below tolerance is not judged by the oracle, is returned as 'skip' by compare (counted in skipped_near_boundary) and "
+    "tagged skipped:near-boundary:<decision> in the histogram",
+    "results are mapped back to the scene by uuid (unique per frame), never by Python identity; the id lists (pairs, kept ground truths, "
+    "TP / FP / FN / TN) are compared as sets: the statement orders none of them",
 ]
 
 LABELS = ["car", "bicycle", "pedestrian", "motorbike"]
@@ -158,7 +164,9 @@ def _scene(rng, task):
                 # persistent track ids with occasional switches
                 key = g["uuid"]
                 if key not in est_ids or rng.random() < 0.15:
-                    est_ids[key] = f"t{len(est_ids)}_{f}"
+                    # track ids are unique within a frame (results are mapped back to the scene by uuid): a running number,
+                    # not len(est_ids) - two switches in one frame would otherwise get the same id
+                    est_ids[key] = f"t{len(est_ids)}_{f}_{k}"
                 e["uuid"] = est_ids[key]
                 ests.append(e)
                 k += 1
@@ -567,40 +575,75 @@ def _real(o, fr):
                     (o["w"], o["l"], o["h"]), z=o.get("z", 0.0), pc=o.get("pc", 10), attributes=o.get("attrs"))
 
 
+class HarnessSetupError(RuntimeError):
+    """building the inputs of a case failed (configs, managers, sample data, real objects): an infrastructure error of the
+    check, raised from harness code so that it is never mistaken for an exception of the calls the property is about"""
+
+
+def _setup(what, fn, *a, **kw):
+    try:
+        return fn(*a, **kw)
+    except Exception as e:  # noqa: BLE001
+        raise HarnessSetupError(f"{what}: {type(e).__name__}: {e}") from e
+
+
+def _key_tables(objs, entries, what):
+    """scene ids of the real objects of one frame, by uuid.  Results are mapped back to the scene by VALUE (the uuid, unique
+    per frame in every generator family), never by `id()`: the property says nothing about object identity, a library that
+    hands back copies of the objects (defensive deepcopy in add_frame_result, filters returning copies) keeps it."""
+    tab = {}
+    for ob, o in zip(objs, entries):
+        if ob.uuid in tab:
+            raise HarnessSetupError(f"{what}: uuid {ob.uuid!r} occurs twice in one frame; results cannot be mapped back")
+        tab[ob.uuid] = o["id"]
+    return tab
+
+
+def _mode_key(mm):
+    """canonical name of a MatchingMode MEMBER (not its display string)"""
+    from perception_eval.evaluation.matching import MatchingMode
+
+    for name, key in (("CENTERDISTANCE", "center"), ("PLANEDISTANCE", "plane"), ("IOU2D", "iou2d"), ("IOU3D", "iou3d")):
+        if mm == getattr(MatchingMode, name, None):
+            return key
+    return str(getattr(mm, "name", mm))
+
+
 def _render(case, frame):
     """run the whole case in one coordinate frame; canonical summary"""
-    m = _manager(case, frame)
+    m = _setup("manager", _manager, case, frame)
     cfg = m.evaluator_config
     c = case["cfg"]
-    crit = B.crit_cfg(cfg, LABELS, **_crit_kwargs(c))
-    pf = B.pf_cfg(cfg, LABELS, c["pf_thr"])
+    crit = _setup("critical object filter config", B.crit_cfg, cfg, LABELS, **_crit_kwargs(c))
+    pf = _setup("pass/fail config", B.pf_cfg, cfg, LABELS, c["pf_thr"])
     out = {"frames": []}
     for fr in case["frames"]:
-        e2m = _e2m(fr)
-        eid, gid = {}, {}
+        e2m = _setup("ego pose", _e2m, fr)
 
-        def mk(o, est):
+        def mk(o):
             ob = _real(o, fr)
-            if frame == "map":
-                ob = B.to_map(ob, e2m)
-            (eid if est else gid)[id(ob)] = o["id"]
-            return ob
+            return B.to_map(ob, e2m) if frame == "map" else ob
 
-        gts = [mk(o, False) for o in fr["gts"]]
-        ests = [mk(o, True) for o in fr["ests"]]
-        gt_frame = B.mk_frame(fr["t"], len(out["frames"]), gts, e2m, history=bool(fr.get("history")))
+        gts = _setup("ground-truth objects", lambda: [mk(o) for o in fr["gts"]])
+        ests = _setup("estimated objects", lambda: [mk(o) for o in fr["ests"]])
+        gid, eid = _key_tables(gts, fr["gts"], "ground truths"), _key_tables(ests, fr["ests"], "estimates")
+        gt_frame = _setup("ground-truth frame", B.mk_frame, fr["t"], len(out["frames"]), gts, e2m, history=bool(fr.get("history")))
+        # ---- the call the property is about (its exceptions are NOT caught here)
         res = m.add_frame_result(fr["t"], gt_frame, ests, crit, pf)
 
         def rid(r):
             g = r.ground_truth_object
-            return [eid[id(r.estimated_object)], None if g is None else gid[id(g)]]
+            return [eid[r.estimated_object.uuid], None if g is None else gid[g.uuid]]
 
-        f = {"pairs": [rid(r) for r in res.object_results],
-             "gt_kept": [gid[id(g)] for g in res.frame_ground_truth.objects],
-             "tp": [rid(r) for r in res.pass_fail_result.tp_object_results],
-             "fp": [[eid[id(r.estimated_object)]] for r in res.pass_fail_result.fp_object_results],
-             "fn": [gid[id(g)] for g in res.pass_fail_result.fn_objects],
-             "tn": [gid[id(g)] for g in res.pass_fail_result.tn_objects],
+        # lists are compared as SETS of scene ids (sorted): the statement orders none of them ("matching ... TP/FP/FN
+        # decisions ... agree"); anything that depends on an order (AP with tied confidences) shows in the metric values
+        srt = lambda xs: sorted(xs, key=lambda v: [(-1 if u is None else u) for u in (v if isinstance(v, list) else [v])])  # noqa: E731
+        f = {"pairs": srt([rid(r) for r in res.object_results]),
+             "gt_kept": srt([gid[g.uuid] for g in res.frame_ground_truth.objects]),
+             "tp": srt([rid(r) for r in res.pass_fail_result.tp_object_results]),
+             "fp": srt([[eid[r.estimated_object.uuid]] for r in res.pass_fail_result.fp_object_results]),
+             "fn": srt([gid[g.uuid] for g in res.pass_fail_result.fn_objects]),
+             "tn": srt([gid[g.uuid] for g in res.pass_fail_result.tn_objects]),
              "num_success": int(res.pass_fail_result.get_num_success()), "num_fail": int(res.pass_fail_result.get_num_fail()),
              "scores": {}, "maps": _maps(res.metrics_score), "trk": _trk(res.metrics_score)}
         for r in res.object_results:
@@ -635,19 +678,33 @@ def _num(x):
 def _maps(ms):
     out = []
     for mp in ms.maps:
-        out.append({"mode": mp.matching_mode.value, "map": _num(mp.map), "maph": _num(mp.maph),
+        out.append({"mode": _mode_key(mp.matching_mode), "map": _num(mp.map), "maph": _num(mp.maph),
                     "aps": [[a.target_labels[0].value, _num(a.ap), a.num_ground_truth] for a in mp.aps],
                     "aphs": [[a.target_labels[0].value, _num(a.ap)] for a in mp.aphs]})
-    return out
+    return sorted(out, key=lambda d: d["mode"])  # one Map per configured mode; their order is not a statement of C07
+
+
+def _clear_field(c, attr, key):
+    """MOTA / MOTP / ID switches of one CLEAR: the public attribute, else the `results` entry; when neither is there the
+    observation is dropped for the run (histogram key `unobservable:CLEAR.<attr>`) - never `None == None` silently"""
+    if hasattr(c, attr):
+        return getattr(c, attr)
+    res = getattr(c, "results", None)
+    if isinstance(res, dict) and key in res:
+        return res[key]
+    return "unobservable"
 
 
 def _trk(ms):
     out = []
     for ts in ms.tracking_scores:
-        out.append({"mode": ts.matching_mode.value,
-                    "clears": [[c.target_labels[0].value, _num(c.results.get("MOTA")), _num(c.results.get("MOTP")),
-                                c.results.get("id_switch"), _num(c.tp), _num(c.fp), int(c.num_ground_truth)] for c in ts.clears]})
-    return out
+        rows = []
+        for c in ts.clears:
+            mota, motp, sw = _clear_field(c, "mota", "MOTA"), _clear_field(c, "motp", "MOTP"), _clear_field(c, "id_switch", "id_switch")
+            rows.append([c.target_labels[0].value, mota if isinstance(mota, str) else _num(mota), motp if isinstance(motp, str) else _num(motp),
+                         sw if isinstance(sw, str) else int(sw), _num(c.tp), _num(c.fp), int(c.num_ground_truth)])
+        out.append({"mode": _mode_key(ts.matching_mode), "clears": rows})
+    return sorted(out, key=lambda d: d["mode"])
 
 
 def _margins_ok(case):
@@ -723,35 +780,73 @@ def _pair_obs(case):
     return {"ests": [e[2:] for e in ests], "gts": [g[2:] for g in gts], "pairs": pairs, "same": same}
 
 
+def _corner_rank_margin(o):
+    """gap between the 2nd and the 3rd smallest ego distance of the footprint corners of a scene object (ego rendering, exact
+    scene geometry): below it the two 'nearest' corners of the plane distance are not determined"""
+    c, s_ = math.cos(o["yaw"]), math.sin(o["yaw"])
+    d = sorted(math.hypot(o["x"] + c * u - s_ * v, o["y"] + s_ * u + c * v)
+               for u, v in ((o["l"] / 2, o["w"] / 2), (-o["l"] / 2, o["w"] / 2), (-o["l"] / 2, -o["w"] / 2), (o["l"] / 2, -o["w"] / 2)))
+    return d[2] - d[1]
+
+
+def _near_reasons(case, ego):
+    """The quantifier of C07: "all filter/threshold configurations for which no decision is within tolerance of its boundary".
+    Every decision the pipeline takes on a COORDINATE-DEPENDENT quantity is listed here with its margin, computed from the scene
+    itself (exact ego-frame geometry of the case) on the FULL estimate x ground-truth table of every frame - not only on the
+    pairs that ended up matched - and, for the scores of matched pairs (polygon clipping), from the ego rendering.  A case with
+    any margin below tolerance is outside the quantifier: not judged by the oracle, "skip" for the correspondence, counted."""
+    c = case["cfg"]
+    why = set()
+    if not _margins_ok(case):
+        why.add("range-bound")  # |x|, |y| or the BEV distance of an object within 1e-4 of a filter bound (either level)
+    radii = [float(r) for r in (c["radii"] or [])]
+    for fr, f in zip(case["frames"], ego["frames"]):
+        ests, gts = fr["ests"], fr["gts"]
+        # the matcher's table (CENTERDISTANCE, 3-D): candidates are cut at max_matchable_radii, the greedy choice is an arg-min
+        # over ALL remaining entries -> every entry against every radius, and every two entries against each other
+        table = sorted((math.dist((e["x"], e["y"], e.get("z", 0.0)), (g["x"], g["y"], g.get("z", 0.0))), i, j)
+                       for i, e in enumerate(ests) for j, g in enumerate(gts))
+        if any(abs(d - r) < MARGIN for d, _i, _j in table for r in radii):
+            why.add("candidate-on-matchable-radius")
+        lim = max(radii) + MARGIN if radii else float("inf")  # entries beyond every radius never compete
+        live = [t for t in table if t[0] <= lim]
+        for n, (d, i, j) in enumerate(live):
+            for d2, i2, j2 in live[n + 1:]:
+                if d2 - d >= MARGIN:
+                    break
+                # the greedy matcher = scan of the entries in ascending order, an entry is taken when its row and column are
+                # free.  Two tied entries that share a row or a column: the WINNER is not determined.  Two tied entries that
+                # share neither: the same pairs come out, only the order of the result list is open - which matters where an
+                # order is consumed: the stable sort by confidence of AP (equal confidences).
+                if i == i2 or j == j2:
+                    why.add("candidate-tie")
+                elif ests[i].get("score", 1.0) == ests[i2].get("score", 1.0):
+                    why.add("candidate-tie:result-order-with-equal-confidence")
+        # plane distance: the ground truth's two nearest corners (every ground truth: any of them may get matched)
+        if any(_corner_rank_margin(g) < MARGIN for g in gts):
+            why.add("corner-rank-tie")
+        # scores of the matched pairs against every threshold that is applied to them
+        for v in f["scores"].values():
+            if v[5] and math.pi - abs(v[5][0]) < MARGIN:
+                why.add("yaw-error-at-pi")  # exactly opposite headings: the sign of the yaw error is decided by rounding (headingError_toMap)
+            thr = [(v[0], c["center_thr"]), (v[1], c["plane_thr"]), (v[2], c["iou2d_thr"]), (v[3], c["iou3d_thr"])]
+            thr += [(v[1], t) for t in c["pf_thr"]]
+            if any(abs(a - b) < MARGIN for a, b in thr):
+                why.add("score-on-threshold")
+    return sorted(why)
+
+
 def run_impl(case):
+    # set-up failures are raised as HarnessSetupError from harness code (infrastructure, never a statement about C07); the
+    # exceptions of add_frame_result / get_scene_result / the score objects propagate as what they are
     try:
         ego = _render(case, "base_link")
         mp = _render(case, "map")
         obs = _pair_obs(case)
-    except Exception as e:
+    finally:
         B.cleanup()
-        import traceback
-
-        return {"err": type(e).__name__, "trace": traceback.format_exc()[-1500:]}
-    B.cleanup()
-    # score margins: thresholds and ties, judged on the ego rendering
-    near = not _margins_ok(case)
-    c = case["cfg"]
-    for f in ego["frames"]:
-        vals = list(f["scores"].values())
-        cds = sorted(v[0] for v in vals)
-        if any(b - a < MARGIN for a, b in zip(cds, cds[1:])):
-            near = True  # two matches tied in the matcher's ranking: the order of the results is not determined
-        for v in vals:
-            if v[5] and math.pi - abs(v[5][0]) < MARGIN:
-                near = True  # exactly opposite headings: the sign of the yaw error is decided by rounding (headingError_toMap)
-            thr = [(v[0], c["center_thr"]), (v[1], c["plane_thr"]), (v[2], c["iou2d_thr"]), (v[3], c["iou3d_thr"])]
-            thr += [(v[1], t) for t in c["pf_thr"]]
-            if c["radii"]:
-                thr += [(v[0], t) for t in c["radii"]]
-            if any(abs(a - b) < MARGIN for a, b in thr):
-                near = True
-    return {"ego": ego, "map": mp, "near": near, "obs": obs}
+    why = _near_reasons(case, ego)
+    return {"ego": ego, "map": mp, "near": bool(why), "near_why": why, "obs": obs}
 
 
 # ----------------------------------------------------------------------------- correspondence with the Lean model
@@ -762,7 +857,7 @@ def _mobj(o):
 
 
 def model_requests(case, out):
-    if "err" in out:
+    if not isinstance(out, dict) or "err" in out or "obs" not in out:
         return []
     fr = case["frames"][0]
     cc, ss = B.rat_rot(Fraction(fr["pose"]["t"]))
@@ -774,13 +869,53 @@ def model_requests(case, out):
         req["pairs"] = [[p["i"], p["j"]] for p in out["obs"]["pairs"]]
     elif _eval_applicable(case):
         req["eval"] = _eval_request(case, fr, req["filter"])
+    if _history_applicable(case):
+        req["history"] = _history_request(case)
     return [req]
+
+
+TRACK_MODES = ["center", "iou2d", "iou3d", "plane"]
+
+
+def _history_applicable(case):
+    """sequences (tracking task): every frame through the composed model, and the CLEAR fold over the history (`trackingOf`)
+    against the real scene result.  Small frames only (the model computes every exact score table incl. polygon clipping)."""
+    return (case["task"] == "tracking" and _eval_applicable(case)
+            and all(len(f["ests"]) * len(f["gts"]) <= 64 for f in case["frames"]))
+
+
+def _pose_request(fr):
+    cc, ss = B.rat_rot(Fraction(fr["pose"]["t"]))
+    return {"c": core.q(cc), "s": core.q(ss), "tau": core.q(B.yaw_of(cc, ss) / math.pi), "tx": core.q(fr["pose"]["tx"]),
+            "ty": core.q(fr["pose"]["ty"]), "tz": core.q(fr["pose"].get("tz", 0.0))}
+
+
+def _history_request(case):
+    c = case["cfg"]
+    uid = {}  # persistent numbers of the uuids over the sequence (track ids of the estimates, object ids of the ground truths)
+    frames = []
+    cfg = None
+    for fr in case["frames"]:
+        ev = _eval_request(case, fr, _filter_request(case, fr))
+        for side in ("est_attrs", "gt_attrs"):
+            for a in ev[side]:
+                a["uid"] = uid.setdefault((side, a["uuid"]), len(uid))
+        frames.append({"pose": _pose_request(fr), "ests": [_mobj(o) for o in fr["ests"]], "gts": [_mobj(o) for o in fr["gts"]],
+                       "est_attrs": ev.pop("est_attrs"), "gt_attrs": ev.pop("gt_attrs")})
+        cfg = ev
+    thr = {"center": _sq(c["center_thr"]), "plane": _sq(c["plane_thr"]), "iou2d": core.q(c["iou2d_thr"]), "iou3d": core.q(c["iou3d_thr"])}
+    return {"cfg": cfg, "frames": frames,
+            "track": [{"mode": m, "targets": [[LID[l], thr[m]] for l in LABELS]} for m in TRACK_MODES]}
 
 
 # the model's WHOLE frame (`FrameChange.evalFrame`: manager filter -> score table -> matcher -> critical filter -> pass/fail,
 # AP/APH) in both renderings, compared with the two real frame results of frame 0 (`_cmp_eval`)
 LID = {"unknown": 0, "FP": 1, "car": 2, "bicycle": 3, "pedestrian": 4, "motorbike": 5, "bus": 6}
-MODE_OF = {"Center Distance": "center", "Plane Distance": "plane", "IoU 2D": "iou2d", "IoU 3D": "iou3d"}
+
+
+def _canon_ids(xs):
+    """id lists of the model in the canonical (sorted) form of `_render`: the statement orders none of these lists"""
+    return sorted(xs, key=lambda v: [(-1 if u is None else u) for u in (v if isinstance(v, list) else [v])])
 
 
 def _eval_applicable(case):
@@ -815,32 +950,80 @@ def _eval_request(case, fr, flt):
 
 
 def _cmp_eval(case, out, r):
-    sent = ["center", "iou2d", "iou3d", "plane"]
     for rendering in ("ego", "map"):
         m = r.get(f"eval_{rendering}")
         if m is None:
             continue
-        real = out[rendering]["frames"][0]
+        bad = _cmp_frame(f"whole frame [{rendering} rendering]", out[rendering]["frames"][0], m)
+        if bad:
+            return bad
+    return None
+
+
+def _cmp_history(case, out, r):
+    """every frame of a sequence against the model's `evalFrame`, and the scene's tracking scores against `trackingOf`
+    (the CLEAR fold over the model's object results of all frames), in both renderings"""
+    for rendering in ("ego", "map"):
+        h = r.get(f"hist_{rendering}")
+        if h is None:
+            continue
+        real = out[rendering]
+        if len(h["frames"]) != len(real["frames"]):
+            return f"history [{rendering} rendering]: {len(real['frames'])} real frame results, {len(h['frames'])} model frames"
+        for k, (mf, rf) in enumerate(zip(h["frames"], real["frames"])):
+            bad = _cmp_frame(f"history frame {k} [{rendering} rendering]", rf, mf)
+            if bad:
+                return bad
+        by_mode = {t["mode"]: t for t in real["scene_trk"]}
+        for mode, mt in zip(TRACK_MODES, h["tracking"]):
+            rt = by_mode.get(mode)
+            if rt is None:
+                continue  # the real scene result has no tracking score for this mode
+            tag = f"tracking [{rendering} rendering] {mode}"
+            if "err" in mt:
+                return f"{tag}: the model raises {mt['err']}, the real scene result exists"
+            rows = {row[0]: row for row in rt["clears"]}
+            for lab, mc in zip(LABELS, mt["ok"]["clears"]):
+                row = rows.get(lab)
+                if row is None:
+                    continue
+                _l, mota, motp, sw, tp, fp, g = row
+                checks = [("num_ground_truth", g, mc["g"]), ("tp", tp, mc["tp"]), ("fp", fp, mc["fp"])]
+                if sw != "unobservable":
+                    checks.append(("id_switch", sw, mc["sw"]))
+                if mota != "unobservable":
+                    checks.append(("MOTA", mota, mc["mota"]))
+                if motp != "unobservable" and mode in ("iou2d", "iou3d"):  # distances travel squared: MOTP of the distance modes is not comparable
+                    checks.append(("MOTP", motp, mc["motp"]))
+                for name, a, b in checks:
+                    if (a is None) != (b is None) or (a is not None and not _near(a, Fraction(b), 1e-6, 1e-6)):
+                        return f"{tag} [{lab}] {name}: real {a} != model trackingOf {b}"
+    return None
+
+
+def _cmp_frame(tag, real, m):
+    sent = ["center", "iou2d", "iou3d", "plane"]
+    if True:
         if "err" in m:
-            return f"whole frame [{rendering} rendering]: the model raises {m['err']}, the real frame result exists"
+            return f"{tag}: the model raises {m['err']}, the real frame result exists"
         m = m["ok"]
         for key, rv in (("pairs", real["pairs"]), ("gt_kept", real["gt_kept"]), ("tp", real["tp"]), ("fp", [x[0] for x in real["fp"]]),
                         ("fn", real["fn"]), ("tn", real["tn"])):
-            if m[key] != rv:
-                return f"whole frame [{rendering} rendering] {key}: real {rv} != model evalFrame {m[key]}"
-        by_mode = {MODE_OF.get(mp["mode"], mp["mode"]): mp for mp in real["maps"]}
+            if _canon_ids(m[key]) != _canon_ids(rv):
+                return f"{tag} {key}: real {rv} != model evalFrame {_canon_ids(m[key])} (as sets)"
+        by_mode = {mp["mode"]: mp for mp in real["maps"]}
         if sorted(by_mode) != sorted(sent) or len(m["maps"]) != len(sent):
-            return f"whole frame [{rendering} rendering]: maps of the real frame {sorted(by_mode)} vs model {sent}"
+            return f"{tag}: maps of the real frame {sorted(by_mode)} vs model {sent}"
         for mode, mm in zip(sent, m["maps"]):
             rm = by_mode[mode]
             rows = [("map", rm["map"], mm["map"]), ("maph", rm["maph"], mm["maph"])]
             rows += [(f"ap[{a[0]}]", a[1], b) for a, b in zip(rm["aps"], mm["aps"])]
             rows += [(f"aph[{a[0]}]", a[1], b) for a, b in zip(rm["aphs"], mm["aphs"])]
             if len(rm["aps"]) != len(mm["aps"]) or len(rm["aphs"]) != len(mm["aphs"]):
-                return f"whole frame [{rendering} rendering] {mode}: number of APs differs"
+                return f"{tag} {mode}: number of APs differs"
             for name, a, b in rows:
                 if (a is None) != (b is None) or (a is not None and not _near(a, Fraction(b), 1e-6, 1e-6)):
-                    return f"whole frame [{rendering} rendering] {mode} {name}: real {a} != model evalFrame {b}"
+                    return f"{tag} {mode} {name}: real {a} != model evalFrame {b}"
     return None
 
 
@@ -877,8 +1060,8 @@ def _near(a, b, rel, ab):
 
 
 def compare(case, out, resps):
-    if "err" in out:
-        return None
+    if not isinstance(out, dict) or "err" in out or "obs" not in out:
+        return None  # no output of the real code to compare
     r = resps[0]
     obs = out["obs"]
     for side in ("ests", "gts"):
@@ -917,11 +1100,16 @@ def compare(case, out, resps):
     if not out["near"] and "gt_kept_ego" in r:
         for rendering in ("ego", "map"):
             mod, real = r[f"gt_kept_{rendering}"], out[rendering]["frames"][0]["gt_kept"]
-            if mod.get("ok") != real:
-                return f"ground truths kept by the two filters [{rendering} rendering]: real {real} != model {mod}"
+            if "ok" not in mod or _canon_ids(mod["ok"]) != _canon_ids(real):
+                return f"ground truths kept by the two filters [{rendering} rendering]: real {real} != model {mod} (as sets)"
     # the whole frame of the composed model against the two real frame results
     if not out["near"] and "eval_ego" in r:
         bad = _cmp_eval(case, out, r)
+        if bad:
+            return bad
+    # sequences: every frame and the CLEAR fold over the history (MOTA, MOTP, ID switches of the scene result)
+    if not out["near"] and "hist_ego" in r:
+        bad = _cmp_history(case, out, r)
         if bad:
             return bad
     # object identity: `==` of the real objects vs the model's equality table (same pose) and the frame-free label
@@ -936,7 +1124,9 @@ def compare(case, out, resps):
                     if v != want:
                         return (f"{side}[{i}] == {side}[{j}] is {v} in the {rendering} rendering, the model says {want} "
                                 f"(ids {fr[side][i]['id']}, {fr[side][j]['id']})")
-    return None
+    # a scene with a decision within tolerance of its boundary is outside the quantifier: the decision-free intermediates above
+    # were compared, the decisions (kept sets, whole frame) were not -> counted as skipped
+    return "skip" if out["near"] else None
 
 
 # ----------------------------------------------------------------------------- oracle: the two executions agree
@@ -970,24 +1160,41 @@ def _cmp(a, b, tol, path=""):
 
 
 def oracle(case, out):
-    if "err" in out:
-        return f"evaluation raised {out['err']}: {out.get('trace', '')[-400:]}"
+    if not isinstance(out, dict) or "err" in out or "ego" not in out:
+        # an exception that escaped run_impl from inside the library (reported by run_check itself under the current convention)
+        return f"evaluation raised {out.get('err')}: {str(out.get('trace', ''))[-400:]}" if isinstance(out, dict) else None
     if out["near"]:
+        # "all filter/threshold configurations for which no decision is within tolerance of its boundary": not judged
+        # (compare returns "skip" for the same case, so it is counted; histogram key skipped:near-boundary:<which decision>)
         return None
     d = _cmp(out["ego"], out["map"], 1e-6)
     if d is None:
         for p in out["obs"]["pairs"]:  # per-object scores of every pair, also the unmatched ones
             d = _cmp(p["ego"][:5], p["map"][:5], 1e-6, f"pair {p['i']},{p['j']}") if p["rank_margin"] > 1e-6 else None
+            if d is None and math.pi - abs(p["ego"][5]) > MARGIN:  # the yaw error too (at exactly opposite headings its sign is open)
+                d = _cmp_num(float(p["ego"][5]), float(p["map"][5]), 1e-6, f"pair {p['i']},{p['j']} yaw error")
             if d:
                 break
     return None if d is None else "ego-frame and map-frame executions differ at " + d
 
 
+def _unobservable(out):
+    names = set()
+    for rendering in ("ego", "map"):
+        rows = [row for f in out[rendering]["frames"] for t in f["trk"] for row in t["clears"]]
+        rows += [row for t in out[rendering]["scene_trk"] for row in t["clears"]]
+        for row in rows:
+            for name, v in zip(("mota", "motp", "id_switch"), row[1:4]):
+                if v == "unobservable":
+                    names.add(f"unobservable:CLEAR.{name}")
+    return sorted(names)
+
+
 def branches(case, out):
-    if "err" in out:
-        return ["err:" + out["err"]]
+    if not isinstance(out, dict) or "err" in out or "ego" not in out:
+        return ["err:" + str(out.get("err") if isinstance(out, dict) else out)]
     if out["near"]:
-        return ["trivial", "near-boundary-skipped"]
+        return ["trivial", "skipped:near-boundary"] + ["skipped:near-boundary:" + w for w in out.get("near_why", [])]
     br = [f"task:{case['task']}", f"filter:{case['cfg']['filter']['kind']}", f"crit:{case['cfg']['crit']['kind']}",
           f"policy:{case['cfg']['policy']}", f"radii:{'yes' if case['cfg']['radii'] else 'no'}"]
     npairs = sum(1 for f in out["ego"]["frames"] for p in f["pairs"] if p[1] is not None)
@@ -1002,7 +1209,9 @@ def branches(case, out):
     fr0 = case["frames"][0]
     whole = len(fr0["ests"]) * len(fr0["gts"]) <= 64 and _eval_applicable(case)
     br.append("whole-frame-model:" + ("compared" if whole and not out["near"] else "near-boundary" if whole else "not-applicable"))
-    return br
+    if case["task"] == "tracking":
+        br.append("history-model(all frames + CLEAR fold):" + ("compared" if _history_applicable(case) else "not-applicable"))
+    return br + _unobservable(out)
 
 
 def _criteria_branches(case, out):
